@@ -79,7 +79,8 @@ type benignParams struct {
 	ClientAuth   gmtls.ClientAuthType
 	ClientCert   int // 0 none 1 valid 2 untrusted (other CA)
 	SrvClientCAs bool
-	SrvCertSrc   int // 0 static 1 callbacks 2 GetConfigForClient
+	SrvCertSrc   int // 0 static 1 callbacks 2 GetConfigForClient 3 callbacks decline (nil, nil), static list present 4 callbacks decline, nothing static
+	Curves       []uint16 // TLS: CurvePreferences of both ends (nil = default)
 	CliCertSrc   int // 0 static 1 GetClientCertificate
 	Tickets      bool
 	DynOff       bool
@@ -140,6 +141,10 @@ func drawBenignParams(c *simkit.Choice) benignParams {
 		if c.Bool(1, 6, simkit.LScen) {
 			pool = gmAllSuites
 		}
+		if c.Bool(1, 5, simkit.LScen) {
+			// a list shared with TLS use (auto-switch deployments): ids of the other family mixed in
+			pool = append(append([]uint16(nil), pool...), 0xc02f, 0x009c, 0x002f, 0xc02b)
+		}
 		p.CSuites = drawSuiteList(c, pool)
 		p.SSuites = drawSuiteList(c, pool)
 		if p.CSuites == nil && c.Bool(5, 6, simkit.LScen) {
@@ -151,8 +156,12 @@ func drawBenignParams(c *simkit.Choice) benignParams {
 		for _, s := range tlsSuiteTab {
 			pool = append(pool, s.id)
 		}
+		if c.Bool(1, 5, simkit.LScen) {
+			pool = append(pool, gmSuites...)
+		}
 		p.CSuites = drawSuiteList(c, pool)
 		p.SSuites = drawSuiteList(c, pool)
+		p.Curves = [][]uint16{nil, nil, {23}, {24}, {25}, {25, 23}, {29}, {24, 29, 23}}[c.Choose(8, simkit.LScen)]
 		vs := []uint16{0, gmtls.VersionTLS10, gmtls.VersionTLS11, gmtls.VersionTLS12}
 		p.CMax = vs[c.Weighted([]int{5, 1, 1, 2}, simkit.LScen)]
 		p.SMax = vs[c.Weighted([]int{5, 1, 1, 2}, simkit.LScen)]
@@ -176,11 +185,27 @@ func drawBenignParams(c *simkit.Choice) benignParams {
 		p.SrvMissing = true
 		p.SrvCertSrc = 0
 	}
-	if p.Peer == peerGmtls && !p.SrvMissing && p.CVerify == 0 && p.CallbackErr == 0 && c.Bool(1, 5, simkit.LScen) {
+	if p.SMode != modeAuto && !p.SrvMissing && p.CallbackErr != 1 && c.Bool(1, 8, simkit.LScen) {
+		p.SrvCertSrc = 3 + c.Weighted([]int{3, 1}, simkit.LScen)
+	}
+	if p.Peer == peerGmtls && !p.SrvMissing && p.SrvCertSrc < 3 && p.CVerify == 0 && p.CallbackErr == 0 && c.Bool(1, 5, simkit.LScen) {
 		p.VHost = true
 		p.SrvKey = 0 // the second TLS identity has an RSA key
 		if p.SrvCertSrc == 0 && (p.CGM || p.SMode == modeAuto) {
 			p.SrvCertSrc = 1 // GMSSL / auto-switch select by name through the callbacks
+		}
+	}
+	// the stdlib ends have no callbacks in this harness: certificates are static there
+	if p.Peer == peerStdClient {
+		p.CliCertSrc = 0
+		if p.CallbackErr == 2 {
+			p.CallbackErr = 0
+		}
+	}
+	if p.Peer == peerStdServer {
+		p.SrvCertSrc = 0
+		if p.CallbackErr == 1 {
+			p.CallbackErr = 0
 		}
 	}
 	// SrvChain (certificates under an intermediate CA) is outside C06's quantifier;
@@ -243,7 +268,11 @@ func (p *benignParams) model() (verdict int, rule string, vers uint16, suite uin
 	stdSrv := p.Peer == peerStdServer
 	if p.CGM {
 		vers = gmtls.VersionGMSSL
-		cl, sl := p.CSuites, p.SSuites
+		// ids of the TLS family in a list can never be negotiated in a GMSSL handshake
+		cl, sl := gmOnly(p.CSuites), gmOnly(p.SSuites)
+		if (cl != nil && len(cl) == 0) || (sl != nil && len(sl) == 0) {
+			return vFail, "A3-no-suite", 0, 0
+		}
 		if cl == nil || sl == nil {
 			// A default list (nil): its content and order are documented only by the
 			// code. Assumption at documentation level: the default offers both
@@ -301,9 +330,16 @@ func (p *benignParams) model() (verdict int, rule string, vers uint16, suite uin
 		}
 		vers = v
 		cl, sl := p.CSuites, p.SSuites
-		if cl == nil || sl == nil || stdSrv || p.Peer == peerStdClient {
-			// default lists / stdlib's own preference order: suite not predicted,
-			// and whether a common usable suite exists is not predicted either
+		// the stdlib end always gets an explicit list (stdSuites): the whole table when none was drawn
+		if stdSrv {
+			sl = stdSuites(sl)
+		}
+		if p.Peer == peerStdClient {
+			cl = stdSuites(cl)
+		}
+		if cl == nil || sl == nil {
+			// a default list of gmtls: its content is documented only by the code, so
+			// neither the suite nor whether a common usable suite exists is predicted
 			return vUnspecified, "", vers, 0
 		}
 		pref, other := cl, sl
@@ -327,9 +363,12 @@ func (p *benignParams) model() (verdict int, rule string, vers uint16, suite uin
 		if suite == 0 {
 			return vFail, "A3-no-suite", 0, 0
 		}
+		if stdSrv || p.Peer == peerStdClient {
+			suite = 0 // existence of a usable common suite is predicted, the stdlib's own preference order is not
+		}
 	}
 	// A5 GMSSL server without an encryption certificate
-	if p.SrvMissing {
+	if p.SrvMissing || (p.SrvCertSrc == 4 && !stdSrv) {
 		return vFail, "A5-missing-certs", 0, 0
 	}
 	// A8 callback errors
@@ -362,9 +401,23 @@ func (p *benignParams) model() (verdict int, rule string, vers uint16, suite uin
 	return vComplete, "A9-complete", vers, suite
 }
 
+// gmOnly keeps the GMSSL suite ids of a list (nil stays nil: default list).
+func gmOnly(l []uint16) []uint16 {
+	if l == nil {
+		return nil
+	}
+	out := []uint16{}
+	for _, id := range l {
+		if contains(gmAllSuites, id) {
+			out = append(out, id)
+		}
+	}
+	return out
+}
+
 func (p *benignParams) String() string {
-	return fmt.Sprintf("smode=%d cgm=%v peer=%d csuites=%x ssuites=%x prefsrv=%v cver=[%x,%x] sver=[%x,%x] auth=%d ccert=%d cas=%v ssrc=%d csrc=%d tick=%v dyn=%v skey=%d cberr=%d cverify=%d chain=%d missing=%v vhost=%v",
-		p.SMode, p.CGM, p.Peer, p.CSuites, p.SSuites, p.PreferServer, p.CMin, p.CMax, p.SMin, p.SMax, p.ClientAuth, p.ClientCert, p.SrvClientCAs, p.SrvCertSrc, p.CliCertSrc, p.Tickets, p.DynOff, p.SrvKey, p.CallbackErr, p.CVerify, p.SrvChain, p.SrvMissing, p.VHost)
+	return fmt.Sprintf("curves=%v smode=%d cgm=%v peer=%d csuites=%x ssuites=%x prefsrv=%v cver=[%x,%x] sver=[%x,%x] auth=%d ccert=%d cas=%v ssrc=%d csrc=%d tick=%v dyn=%v skey=%d cberr=%d cverify=%d chain=%d missing=%v vhost=%v",
+		p.Curves, p.SMode, p.CGM, p.Peer, p.CSuites, p.SSuites, p.PreferServer, p.CMin, p.CMax, p.SMin, p.SMax, p.ClientAuth, p.ClientCert, p.SrvClientCAs, p.SrvCertSrc, p.CliCertSrc, p.Tickets, p.DynOff, p.SrvKey, p.CallbackErr, p.CVerify, p.SrvChain, p.SrvMissing, p.VHost)
 }
 
 // serverConfig builds the gmtls server configuration.
@@ -405,6 +458,9 @@ func (p *benignParams) serverConfig(s *simkit.Sim, ent *simkit.Stream, res *endR
 		}
 		c.SessionTicketsDisabled = !p.Tickets
 		c.DynamicRecordSizingDisabled = p.DynOff
+		for _, id := range p.Curves {
+			c.CurvePreferences = append(c.CurvePreferences, gmtls.CurveID(id))
+		}
 	}
 	certs := func(c *gmtls.Config) {
 		switch p.SMode {
@@ -455,6 +511,20 @@ func (p *benignParams) serverConfig(s *simkit.Sim, ent *simkit.Stream, res *endR
 	}
 	fill(cfg)
 	switch p.SrvCertSrc {
+	case 3, 4:
+		// the callbacks decline: "If GetCertificate is nil or returns nil, then the
+		// certificate is retrieved from NameToCertificate and finally Certificates"
+		if p.SrvCertSrc == 3 {
+			certs(cfg)
+		}
+		cfg.GetCertificate = func(h *gmtls.ClientHelloInfo) (*gmtls.Certificate, error) {
+			res.SeenSNI = append(res.SeenSNI, h.ServerName)
+			return nil, nil
+		}
+		cfg.GetKECertificate = func(h *gmtls.ClientHelloInfo) (*gmtls.Certificate, error) {
+			res.SeenSNI = append(res.SeenSNI, h.ServerName)
+			return nil, nil
+		}
 	case 0:
 		certs(cfg)
 		if p.SMode == modeAuto {
@@ -531,6 +601,9 @@ func (p *benignParams) clientConfig(s *simkit.Sim, ent *simkit.Stream, res *endR
 	cfg.CipherSuites = p.CSuites
 	cfg.MinVersion, cfg.MaxVersion = p.CMin, p.CMax
 	cfg.DynamicRecordSizingDisabled = p.DynOff
+	for _, id := range p.Curves {
+		cfg.CurvePreferences = append(cfg.CurvePreferences, gmtls.CurveID(id))
+	}
 	if p.Tickets {
 		cfg.ClientSessionCache = gmtls.NewLRUClientSessionCache(4)
 	}
@@ -986,6 +1059,9 @@ func runTLSBenign(c *simkit.Choice, r *simkit.Rec) {
 
 func stdCommon(p *benignParams, ent *simkit.Stream) *tls.Config {
 	cfg := &tls.Config{Rand: ent, Time: func() time.Time { return simkit.TimeAt(0) }}
+	for _, id := range p.Curves {
+		cfg.CurvePreferences = append(cfg.CurvePreferences, tls.CurveID(id))
+	}
 	return cfg
 }
 
